@@ -3,7 +3,8 @@
    up to the point where the program leaves the API.  So whatever the oracle
    rejects on the implementation is either a violation of C19 or a difference
    between model and implementation. *)
-From Robsd Require Import Base.Bytes Arena.ArenaDefs Arena.ArenaSpec Arena.ArenaProofs Arena.ArenaInv Arena.ArenaThms.
+From Robsd Require Import Base.Bytes Arena.ArenaDefs Arena.ArenaSpec Arena.ArenaProofs Arena.ArenaInv Arena.ArenaThms
+  Arena.ArenaHoles.
 Local Open Scope N_scope.
 
 Section Oracle.
@@ -37,15 +38,70 @@ Proof.
   - destruct (malloc c a s new) as [[q1 a2]| | |]; try discriminate. intros H; inversion H; eauto.
 Qed.
 
+(* ---- the two content observations are computed from the states and hold ------------------ *)
+Lemma loc_eqb_refl p : loc_eqb p p = true.
+Proof. unfold loc_eqb. now rewrite Nat.eqb_refl, N.eqb_refl. Qed.
+
+Lemma cell_eqb_refl x : cell_eqb x x = true.
+Proof.
+  destruct x as [|b|t n i]; simpl; [reflexivity|apply N.eqb_refl|].
+  rewrite !N.eqb_refl. destruct n as [q|]; simpl; [rewrite loc_eqb_refl|]; reflexivity.
+Qed.
+
+Lemma range_eqb_intro m' p m q n :
+  (forall i, i < n -> m' (fst p) (snd p + i) = m (fst q) (snd q + i)) -> range_eqb m' p m q n = true.
+Proof.
+  intros H. unfold range_eqb. apply forallb_forall. intros i Hi. apply in_seq in Hi.
+  rewrite H by lia. apply cell_eqb_refl.
+Qed.
+
+Lemma fill_missesb_spec o b : fill_missesb o b = true -> fill_misses o b.
+Proof.
+  destruct o; simpl; try (intros; exact I).
+  rewrite !orb_true_iff, negb_true_iff, Nat.eqb_neq, !N.eqb_eq, !N.leb_le. tauto.
+Qed.
+
+(* o_intact: every block live before the step that the client did not write keeps its bytes *)
+Lemma intact_model st g o st' ev :
+  reach c st g -> api_okb g o = true -> step c st o = Ok (st', ev) ->
+  intact_obs g o (a_mem (st_a st)) (a_mem (st_a st')) = true.
+Proof.
+  intros R Hapi Hstep. unfold intact_obs. apply forallb_forall. intros b Hb.
+  destruct (fill_missesb o b) eqn:Em; [|reflexivity]. simpl.
+  apply range_eqb_intro. intros i Hi.
+  apply (contents_stable c Hwf _ _ _ _ _ _ R Hapi Hstep Hb (fill_missesb_spec _ _ Em)). assumption.
+Qed.
+
+(* o_prefix: the common prefix of a reallocated block is carried along *)
+Lemma prefix_model st g o st' ev :
+  reach c st g -> api_okb g o = true -> step c st o = Ok (st', ev) ->
+  prefix_obs o ev (a_mem (st_a st)) (a_mem (st_a st')) = true.
+Proof.
+  intros R Hapi Hstep. unfold prefix_obs.
+  destruct o as [|k|k size|k nmemb size|k [p|] old new|k data|k data|k data|k tok|p n v|p|]; try reflexivity.
+  destruct ev as [|[q|]|toks reset|x]; try reflexivity.
+  apply range_eqb_intro. intros i Hi.
+  apply (realloc_prefix c Hwf _ _ _ _ _ _ _ _ R Hapi Hstep). assumption.
+Qed.
+
+Lemma obs_content_hold st g o st' ev :
+  reach c st g -> api_okb g o = true -> step c st o = Ok (st', ev) ->
+  o_intact (obs_of g o st st' ev) = true /\ o_prefix (obs_of g o st st' ev) = true.
+Proof.
+  intros R Hapi Hstep. split; [apply (intact_model _ _ _ _ _ R Hapi Hstep)|apply (prefix_model _ _ _ _ _ R Hapi Hstep)].
+Qed.
+
 (* the observation the model produces passes check_obs *)
 Lemma check_obs_model st g o st' ev :
   reach c st g -> api_okb g o = true -> step c st o = Ok (st', ev) ->
-  check_obs c g o (obs_of st' ev) = 0.
+  check_obs c g o (obs_of g o st st' ev) = 0.
 Proof.
   intros R Hapi Hstep.
   assert (R' : reach c st' (gstep c g o ev)) by (eapply reach_step; eassumption).
   pose proof (reach_inv c Hwf _ _ R) as I.
-  unfold check_obs, obs_of; simpl.
+  pose proof (intact_model _ _ _ _ _ R Hapi Hstep) as Hint.
+  pose proof (prefix_model _ _ _ _ _ R Hapi Hstep) as Hpre.
+  unfold check_obs, obs_of. cbn [o_intact o_ev o_fsize o_prefix]. rewrite Hint. cbn [negb].
   pose proof Hstep as Hstep0. unfold step in Hstep.
   destruct (N.eqb_spec (a_refs (st_a st)) 0) as [Hz|Hnz]; [discriminate|].
   destruct o as [|k|k size|k nmemb size|k p0 old new|k data|k data|k data|k tok|p n v|p|].
@@ -73,9 +129,8 @@ Proof.
       pose proof (live_aligned c Hwf _ _ _ R Hb) as Hm. unfold b_off in Hm. rewrite Hl in Hm.
       apply N.mod_divide in Hm; [|apply (ma_nz c Hwf)]. apply (land_aligned c Hwf _ Hm). }
     destruct (realloc_result_some _ _ _ _ _ _ _ Hal Er) as [q' ->].
-    simpl in R'. simpl.
-    destruct p0 as [p|].
-    + destruct (loc_eqb p q') eqn:Eq.
+    simpl in R'. destruct p0 as [p|]; simpl in Hpre |- *.
+    + rewrite Hpre. cbn [negb]. destruct (loc_eqb p q') eqn:Eq.
       * apply (new_block_checks _ _ _ _ _ _ _ _ R').
       * destruct (inv_realloc c Hwf _ _ _ _ _ _ _ _ _ I Hapi Hk Er) as (_ & _ & _ & Hd).
         assert (Hne : q' <> p).
@@ -101,28 +156,39 @@ Proof.
   - destruct (arena_free c (st_a st)); try discriminate. inversion Hstep; reflexivity.
 Qed.
 
+(* the verdicts the oracle may reach on the model's own trace: nothing, "the program left the
+   API here", "this handle was never returned" - and, only for a source whose shrinking path
+   is not validated ([c_sv c = false], the state before 4eb1227), the outer-scope shrink *)
 Definition acceptable (r : option (nat * N)) : Prop :=
   match r with
   | None => True
-  | Some (_, code) => code = R_OUTSIDE_API \/ code = R_BAD_HANDLE
+  | Some (_, code) => code = R_OUTSIDE_API \/ code = R_BAD_HANDLE \/ (code = R_OUTER_SHRINK /\ c_sv c = false)
   end.
+
+Lemma outside_code_cases g o :
+  outside_code g o = R_OUTSIDE_API \/ (outside_code g o = R_OUTER_SHRINK /\ outer_shrink g o = true).
+Proof. unfold outside_code. destruct (outer_shrink g o); auto. Qed.
 
 Theorem model_trace_accepted ops : forall st g tbl i,
   reach c st g ->
-  let '(tr, last, e) := mtrace c st tbl ops in acceptable (spec_walk c g tbl i tr last e).
+  let '(tr, last, e) := mtrace c st g tbl ops in acceptable (spec_walk c g tbl i tr last e).
 Proof.
   induction ops as [|h rest IH]; intros st g tbl i R.
   - simpl. exact I.
   - simpl. destruct (hop_to_op tbl h) as [o|] eqn:Eh.
-    2:{ simpl. rewrite Eh. simpl. right. reflexivity. }
+    2:{ simpl. rewrite Eh. simpl. right. left. reflexivity. }
     destruct (api_okb g o) eqn:Eapi.
     2:{ (* outside the API: whatever the model does, the oracle stops judging here *)
-        destruct (step c st o) as [[st' ev]| | |].
-        - destruct (mtrace c st' _ rest) as [[tr last] e]. simpl. rewrite Eh, Eapi. simpl. left. reflexivity.
+        destruct (step c st o) as [[st' ev]| | |] eqn:Es.
+        - destruct (mtrace c st' _ _ rest) as [[tr last] e]. simpl. rewrite Eh, Eapi. simpl.
+          destruct (outside_code_cases g o) as [->|[-> Hos]]; [left; reflexivity|].
+          right. right. split; [reflexivity|].
+          destruct (c_sv c) eqn:Esv; [|reflexivity].
+          rewrite (outer_shrink_traps_validated c Hwf _ _ _ Esv R Hos) in Es. discriminate.
         - simpl. rewrite Eh. unfold check_ending. rewrite Eapi. simpl. exact I.
         - simpl. rewrite Eh. unfold check_ending. rewrite Eapi. simpl. exact I.
         - simpl. rewrite Eh. unfold check_ending. rewrite Eapi. simpl. exact I. }
-    destruct (must_trap o) eqn:Emt.
+    destruct (must_trap c o) eqn:Emt.
     + rewrite (outer_use_traps c Hwf _ _ _ R Eapi Emt). simpl. rewrite Eh.
       unfold check_ending. rewrite Eapi, Emt. simpl. exact I.
     + destruct (inner_use_ok c Hwf _ _ _ R Eapi Emt) as [(st' & ev & Es)|[Es Hme]]; rewrite Es.
@@ -130,7 +196,7 @@ Proof.
         specialize (IH st' (gstep c g o ev)
                       (if returns_ptr o then tbl ++ [match ev with EPtr p => p | _ => None end] else tbl)
                       (S i) R').
-        destruct (mtrace c st' _ rest) as [[tr last] e]. simpl. rewrite Eh, Eapi, Emt. simpl.
+        destruct (mtrace c st' _ _ rest) as [[tr last] e]. simpl. rewrite Eh, Eapi, Emt. simpl.
         rewrite (check_obs_model _ _ _ _ _ R Eapi Es). simpl. exact IH.
       * simpl. rewrite Eh. unfold check_ending. rewrite Eapi, Emt, Hme. simpl. exact I.
 Qed.
@@ -139,24 +205,39 @@ Qed.
    unless a handle of the program does not resolve *)
 Corollary model_passes_oracle st ops :
   init c = Some st ->
-  let '(tr, last, e) := mtrace c st [] ops in acceptable (spec_check c tr last e).
+  let '(tr, last, e) := mtrace c st ghost0 [] ops in acceptable (spec_check c tr last e).
 Proof.
   intros Hi. unfold spec_check. apply (model_trace_accepted ops st ghost0 [] O).
   constructor. assumption.
 Qed.
 
+(* with the source as it is now (c_sv): no verdict but "outside the API" / "unknown handle" *)
+Corollary model_passes_oracle_validated st ops :
+  c_sv c = true -> init c = Some st ->
+  let '(tr, last, e) := mtrace c st ghost0 [] ops in
+  match spec_check c tr last e with
+  | None => True
+  | Some (_, code) => code = R_OUTSIDE_API \/ code = R_BAD_HANDLE
+  end.
+Proof.
+  intros Hsv Hi. pose proof (model_passes_oracle st ops Hi) as H.
+  destruct (mtrace c st ghost0 [] ops) as [[tr last] e].
+  destruct (spec_check c tr last e) as [[i code]|]; [|exact I].
+  simpl in H. destruct H as [H|[H|[_ H]]]; auto. congruence.
+Qed.
+
 End Oracle.
 
 (* the trace judged above is the run the correspondence driver prints (hrun) *)
-Lemma hrun_mtrace c ops : forall st tbl,
-  map fst (fst (hrun c st tbl ops)) = map (fun x => o_ev (snd x)) (fst (fst (mtrace c st tbl ops))) /\
-  snd (hrun c st tbl ops) = snd (mtrace c st tbl ops).
+Lemma hrun_mtrace c ops : forall st g tbl,
+  map fst (fst (hrun c st tbl ops)) = map (fun x => o_ev (snd x)) (fst (fst (mtrace c st g tbl ops))) /\
+  snd (hrun c st tbl ops) = snd (mtrace c st g tbl ops).
 Proof.
-  induction ops as [|h rest IH]; intros st tbl; simpl; [split; reflexivity|].
+  induction ops as [|h rest IH]; intros st g tbl; simpl; [split; reflexivity|].
   destruct (hop_to_op tbl h) as [o|]; [|split; reflexivity].
   destruct (step c st o) as [[st' ev]| | |]; try (split; reflexivity).
-  specialize (IH st' (if returns_ptr o then tbl ++ [match ev with EPtr p => p | _ => None end] else tbl)).
-  destruct (hrun c st' _ rest) as [obs e]. destruct (mtrace c st' _ rest) as [[tr last] e'].
+  specialize (IH st' (gstep c g o ev) (if returns_ptr o then tbl ++ [match ev with EPtr p => p | _ => None end] else tbl)).
+  destruct (hrun c st' _ rest) as [obs e]. destruct (mtrace c st' _ _ rest) as [[tr last] e'].
   simpl in *. destruct IH as [IH1 IH2]. split; [f_equal; assumption|assumption].
 Qed.
 
